@@ -48,3 +48,20 @@ let so f = function None -> "null" | Some x -> f x
 let sp f g (a, b) = "[" ^ f a ^ "," ^ g b ^ "]"
 let st f g h ((a, b), c) = "[" ^ f a ^ "," ^ g b ^ "," ^ h c ^ "]"
 let out s = print_string s; print_newline ()
+
+(* ---- NumOps instances for the polymorphic L2 kernels ---- *)
+let float_ops : float M.numOps = {
+  M.nzero = 0.0; nunit = 1.0;
+  nadd = ( +. ); nsub = ( -. ); nmul = ( *. ); ndiv = ( /. ); nneg = (fun x -> -. x);
+  nleb = (fun a b -> a <= b); nofQ = float_of_q;
+  nexp = exp; nln = log; ntanh = tanh; nsqrt = sqrt; npow = Float.pow }
+
+let lift1 f x = q_of_float (f (float_of_q x))
+let q_ops : M.q M.numOps = {
+  M.nzero = q "0"; nunit = q "1";
+  nadd = (fun a b -> M.qred (M.qplus a b)); nsub = (fun a b -> M.qred (M.qminus a b));
+  nmul = (fun a b -> M.qred (M.qmult a b)); ndiv = (fun a b -> M.qred (M.qdiv a b));
+  nneg = (fun a -> M.qopp a);
+  nleb = M.qle_bool; nofQ = (fun x -> x);
+  nexp = lift1 exp; nln = lift1 log; ntanh = lift1 tanh; nsqrt = lift1 sqrt;
+  npow = (fun x a -> q_of_float (Float.pow (float_of_q x) (float_of_q a))) }
